@@ -246,6 +246,7 @@ def step (st : St) (ws : List String) : St × String :=
         ({ st with s := s }, "ok")
       | none => (st, "bad-op")
     | ["dump"] => (st, dumpStr st.s)
+    | ["dumpx"] => (st, dumpStr { st.s with rows := st.s.rows.filter (fun r => !isMissingKey r.1) })
     | ["pend"] => (st, pendStr st.s)
     | ["restart"] => ({ st with s := st.s.restart Gen.c05SchemaVersion }, "ok")
     | ["reindex"] =>
